@@ -115,6 +115,103 @@ POPLIST = Contract(
     },
     **COMMON)
 
+# ----- __setitem__: in-place deletion loop, proved with two ghost maps between old and current positions
+import ast as _ast
+from pyvc.builtins import mk_quant
+
+
+def _is_del_list(node):
+    return (isinstance(node, _ast.Delete) and len(node.targets) == 1 and isinstance(node.targets[0], _ast.Subscript)
+            and isinstance(node.targets[0].value, _ast.Attribute) and node.targets[0].value.attr == "_list")
+
+
+def _ghost_delete(ev, node):
+    """ghost code after `del self._list[index]`: G (current position -> old position) loses the same entry; H (old position
+    -> current position) moves every old position behind the deleted element one to the left"""
+    st = ev.st
+    idx = ev.expr(node.targets[0].slice)
+    G = st.obj(st.ghost["G"])
+    g = ev.list_get(G, idx.t).t          # old position of the element that was just deleted
+    ev.list_delete(G, idx.t)
+    H = st.obj(st.ghost["H"])
+    hc = H.cols[0]
+    nc = z3.Array(st.run.fresh_name("H.c0"), z3.IntSort(), z3.IntSort())
+    p = z3.Int(st.run.fresh_name("hp"))
+    st.assume(mk_quant("forall", [p], nc[p] == z3.If(p > g, hc[p] - 1, hc[p]), patterns=[nc[p]]))
+    H.cols = [nc]
+
+
+def _is_first_index_assign(node):
+    return isinstance(node, _ast.Assign) and len(node.targets) == 1 and isinstance(node.targets[0], _ast.Name) \
+        and isinstance(node.value, _ast.Subscript) and isinstance(node.value.value, _ast.Name) and node.value.value.id == "indexes"
+
+
+def _ghost_first(ev, node):
+    ev.st.ghost["F"] = ev.frame.lookup(node.targets[0].id)
+
+
+def _setitem_setup(ev):
+    """ghost initialisation: both maps start as the identity on the positions of the list"""
+    st = ev.st
+    L = st.obj(st.obj(ev.frame.lookup("self")).fields["_list"])
+    for name in ("G", "H"):
+        o = st.obj(st.ghost[name])
+        o.length = L.length
+        j = z3.Int(st.run.fresh_name("idj"))
+        st.assume(mk_quant("forall", [j], o.cols[0][j] == j, patterns=[o.cols[0][j]]))
+
+
+SI_DEFS = dict(DEFS)
+SI_DEFS.update({
+    "n0()": "len(old(self._list))",
+    "m()": "len(indexes)",
+    "keyp(p)": "old(self._list)[p][0] == key",
+    # b(t): the lowest old position already processed after t iterations (the loop walks the key positions downwards)
+    "b(t)": "indexes[m() - t] if t >= 1 else n0()",
+    "bI(t)": "b(t) if t < m() else indexes[0] + 1",
+    "deleted(p, t)": "keyp(p) and p >= b(t) and p != indexes[0]",
+})
+
+SETITEM = Contract(
+    id="mm.__setitem__", file=D, qualname="MutableMultiMapping.__setitem__", props=["C17"],
+    params={"self": SELF_T, "key": K, "value": V_}, modifies=["self._list", "self._dict"],
+    ghosts={"G": List(Int), "H": List(Int), "F": Int}, ghost_modifies=["G", "H", "F"],
+    setup=_setitem_setup, defs=SI_DEFS, requires=["R(self._list, self._dict)"],
+    stmt_hooks=[(_is_del_list, _ghost_delete), (_is_first_index_assign, _ghost_first)],
+    loop_modifies={1: ["self._list", "G", "H"]},
+    raises={},
+    invariants={1: [
+        "len(G) == len(self._list) and len(H) == n0() and m() >= 1 and F == indexes[0] and 0 <= IDX and IDX <= m()",
+        "forall(i, 0, len(self._list), 0 <= G[i] and G[i] < n0() and H[G[i]] == i and not deleted(G[i], IDX))",
+        "forall(i, 0, len(self._list), implies(not (IDX == m() and i == indexes[0]), self._list[i] == old(self._list)[G[i]]))",
+        "implies(IDX == m(), self._list[indexes[0]] == (key, value))",
+        "forall(i, 0, len(self._list), forall(j, i + 1, len(self._list), G[i] < G[j]))",
+        "forall(p, 0, n0(), implies(not deleted(p, IDX), 0 <= H[p] and H[p] < len(self._list) and G[H[p]] == p))",
+        "forall(i, 0, bI(IDX), i < len(self._list) and G[i] == i and H[i] == i)",
+        "self._dict == old(self._dict)",
+    ]},
+    ensures={
+        "R1": "R1(self._list, self._dict)",
+        "R2": "R2(self._list, self._dict)",
+        "absent.appended": "implies(not old(present(self._list, key)), len(self._list) == n0() + 1 and "
+                           "self._list[n0()] == (key, value) and forall(i, 0, n0(), self._list[i] == old(self._list)[i]))",
+        # present: the FIRST occurrence takes the new value in place, every other occurrence disappears, all other pairs
+        # stay, in their order (G: current position -> old position, strictly increasing; H its inverse)
+        "present.first_in_place": "implies(old(present(self._list, key)), self._list[F] == (key, value) and keyp(F) and "
+                                  "forall(i, 0, F, not keyp(i) and self._list[i] == old(self._list)[i]))",
+        "present.single": "implies(old(present(self._list, key)), forall(i, 0, len(self._list), implies(self._list[i][0] == key, i == F)))",
+        "present.others_kept_in_order": "implies(old(present(self._list, key)), "
+                                        "forall(i, 0, len(self._list), implies(i != F, self._list[i] == old(self._list)[G[i]])) and "
+                                        "forall(i, 0, len(self._list), forall(j, i + 1, len(self._list), G[i] < G[j])) and "
+                                        "forall(p, 0, n0(), implies(not keyp(p), 0 <= H[p] and H[p] < len(self._list) and "
+                                        "self._list[H[p]] == old(self._list)[p])))",
+    },
+    canaries={"never_replaces": "len(self._list) == n0() + 1"},
+    notes="the in-place deletion loop is proved with ghost code: G maps current to old positions, H old to current ones; both "
+          "are updated by ghost statements attached to `del self._list[index]`",
+    **{k: v for k, v in COMMON.items() if k not in ("defs", "requires")})
+
+
 INIT = Contract(
     id="mm.__init__", file=D, qualname="MultiMapping.__init__", props=["C17"],
     params={"self": ObjT(MM), "raw": Opt(PAIRS)}, defs=DEFS, frame_check=False,
@@ -142,7 +239,7 @@ def dict_ctor(ev, args, kwargs, node):
 
 
 def register(reg):
-    for c in (APPEND, GETLIST, GETITEM, MULTI_ITEMS, DELITEM, SETLIST, POPLIST, INIT):
+    for c in (APPEND, GETLIST, GETITEM, MULTI_ITEMS, DELITEM, SETLIST, POPLIST, INIT, SETITEM):
         reg.add(c)
     reg._mixins[("MutableMultiMapping", "__contains__")] = mm_contains
     reg._mixins[("MultiMapping", "__contains__")] = mm_contains
